@@ -27,6 +27,8 @@ fn flag(args: &[String], name: &str) -> bool {
 }
 
 struct Plan {
+    /// histories that start by growing the arena beyond 65 536 slots
+    big_cases: u64,
     random_cases: u64,
     long_cases: u64,
     long_ops: usize,
@@ -40,12 +42,13 @@ fn plan(prop: &str, tier: &str) -> Plan {
     let structural = matches!(prop, "C01" | "C02" | "C03" | "C04" | "C05" | "C12");
     // measured on 16 cores (release build): E(5,4) 0.5 s, E(6,4) 28 s, E'(2,4) 3 s, E'(2,5) 21 s, E'(1,6) 0.5 s
     let mut p = if quick {
-        Plan { random_cases: 12_000, long_cases: 400, long_ops: 200, enum_empty: vec![(4, 4)], enum_shapes: vec![(3, 2), (4, 1), (5, 1)] }
+        Plan { big_cases: 16, random_cases: 9_600, long_cases: 320, long_ops: 200, enum_empty: vec![(4, 4)], enum_shapes: vec![(3, 2), (4, 1), (5, 1)] }
     } else {
-        Plan { random_cases: 360_000, long_cases: 40_000, long_ops: 250, enum_empty: vec![(5, 4)], enum_shapes: vec![(4, 2), (5, 1), (6, 1)] }
+        Plan { big_cases: 96, random_cases: 360_000, long_cases: 40_000, long_ops: 250, enum_empty: vec![(5, 4)], enum_shapes: vec![(4, 2), (5, 1), (6, 1)] }
     };
     if structural && quick {
-        p.random_cases = 16_000;
+        p.random_cases = 6_400;
+        p.long_cases = 160;
         p.enum_empty = vec![(5, 4)];
         p.enum_shapes = vec![(4, 2), (5, 1)];
     }
@@ -57,12 +60,14 @@ fn plan(prop: &str, tier: &str) -> Plan {
         "C06" => {
             p.random_cases = if quick { 480 } else { 20_000 };
             p.long_cases = 0;
+            p.big_cases = 0;
             p.enum_empty = vec![];
             p.enum_shapes = vec![];
         }
         "C17" => {
             p.random_cases = if quick { 1600 } else { 10_000 };
             p.long_cases = if quick { 0 } else { 800 };
+            p.big_cases = 0;
             p.enum_empty = vec![(3, 3)];
             p.enum_shapes = vec![];
         }
@@ -71,12 +76,14 @@ fn plan(prop: &str, tier: &str) -> Plan {
             p.enum_shapes = vec![];
             p.random_cases = if quick { 6000 } else { 200_000 };
             p.long_cases = if quick { 0 } else { 20_000 };
+            p.big_cases = 0;
         }
         "C13" => {
             p.enum_empty = vec![];
             p.enum_shapes = vec![];
             p.random_cases = if quick { 8000 } else { 100_000 };
             p.long_cases = if quick { 0 } else { 10_000 };
+            p.big_cases = 0;
         }
         "C09" | "C10" | "C11" | "C07" | "C08" => {
             if !quick {
@@ -230,6 +237,7 @@ fn run<P: Payload>(args: &[String], prop: &str, seed: u64, build: &str, prof: Pr
     if let Some(c) = arg(args, "--cases").and_then(|s| s.parse::<u64>().ok()) {
         pl.random_cases = c;
         pl.long_cases = 0;
+        pl.big_cases = 0;
     }
     if let Some(e) = arg(args, "--enum-shapes") {
         // e.g. "4:2,5:1"
@@ -238,13 +246,16 @@ fn run<P: Payload>(args: &[String], prop: &str, seed: u64, build: &str, prof: Pr
     if let Some(e) = arg(args, "--enum-empty") {
         pl.enum_empty = e.split(',').filter_map(|x| x.split_once(':')).filter_map(|(a, b)| Some((a.parse().ok()?, b.parse().ok()?))).collect();
     }
+    if flag(args, "--no-big") {
+        pl.big_cases = 0;
+    }
     if flag(args, "--no-enum") {
         pl.enum_empty.clear();
         pl.enum_shapes.clear();
     }
     // hang supervisor: a single case normally takes well under a second
     {
-        let limit: u64 = std::env::var("ITV_HANG_SECS").ok().and_then(|s| s.parse().ok()).unwrap_or(90);
+        let limit: u64 = std::env::var("ITV_HANG_SECS").ok().and_then(|s| s.parse().ok()).unwrap_or(60);
         let (prop_s, build_s) = (prop.to_string(), build.to_string());
         std::thread::spawn(move || loop {
             std::thread::sleep(std::time::Duration::from_millis(1000));
@@ -353,14 +364,22 @@ fn run<P: Payload>(args: &[String], prop: &str, seed: u64, build: &str, prof: Pr
         let stop = Arc::new(AtomicBool::new(false));
         let results: Mutex<Vec<(u64, RandomOut)>> = Mutex::new(Vec::new());
         let long_prof = Profile { max_ops: pl.long_ops, min_ops: 60, ..prof.clone() };
+        let mut big_prof = Profile { max_ops: 14, min_ops: 5, w_grow: 40, grow: itv_core::gen::GROW_XL, w_churn: 0, ..prof.clone() };
+        big_prof.deep.max_cand = big_prof.deep.max_cand.min(4);
+        let big_cfg = StepCfg { max_live: 100_000, ..cfg.clone() };
         std::thread::scope(|s| {
             for w in 0..workers {
-                let (stop, results, prof, cfg, long_prof) = (stop.clone(), &results, &prof, &cfg, &long_prof);
-                let (rc, lc) = (pl.random_cases / workers, pl.long_cases / workers);
+                let (stop, results, prof, cfg, long_prof, big_prof, big_cfg) = (stop.clone(), &results, &prof, &cfg, &long_prof, &big_prof, &big_cfg);
+                let (rc, lc, bc) = (pl.random_cases / workers, pl.long_cases / workers, pl.big_cases / workers);
                 s.spawn(move || {
                     itv_core::silence_panics();
                     watch::set_worker(w as usize);
                     let mut o = random_worker::<P>(prop, prof, cfg, seed, w, rc, &stop);
+                    if o.violation.is_none() && bc > 0 && !stop.load(Ordering::Relaxed) {
+                        let o2 = random_worker::<P>(prop, big_prof, big_cfg, seed ^ 0xB16, w + 2000, bc, &stop);
+                        o.stats.merge(o2.stats);
+                        o.violation = o2.violation;
+                    }
                     if o.violation.is_none() && lc > 0 && !stop.load(Ordering::Relaxed) {
                         let o2 = random_worker::<P>(prop, long_prof, cfg, seed ^ 0x10_06, w + 1000, lc, &stop);
                         o.stats.merge(o2.stats);
@@ -380,7 +399,7 @@ fn run<P: Payload>(args: &[String], prop: &str, seed: u64, build: &str, prof: Pr
             total.merge(o.stats);
         }
     }
-    engines.insert("random", json!({"cases": rnd_cases, "workers": workers, "max_ops": prof.max_ops, "long_cases_max_ops": pl.long_ops}));
+    engines.insert("random", json!({"cases": rnd_cases, "workers": workers, "max_ops": prof.max_ops, "long_cases": pl.long_cases, "long_cases_max_ops": pl.long_ops, "big_arena_cases_over_65536_slots": pl.big_cases}));
 
     // ---- digests
     if let Some(dp) = arg(args, "--digests") {
